@@ -221,6 +221,62 @@ Definition raft_compact (s : st) (g idx : N) : st :=
   | Err _ => s
   end.
 
+(** OpenWALStorage replay for group [g] over the remaining segments *)
+Definition greplay1 (g : N) (m : mem) (r : wrec) : res mem :=
+  match r with
+  | WLsm _ _ _ => Ok m
+  | WEnts g' first es =>
+      if negb (g' =? g) then Ok m else
+      match es with [] => Ok m | _ => mem_append m first es end
+  | WHs g' h => if negb (g' =? g) then Ok m else Ok (mem_set_hs m h)
+  end.
+Fixpoint greplay (g : N) (m : mem) (rs : list wrec) : res mem :=
+  match rs with
+  | [] => Ok m
+  | r :: rs' => match greplay1 g m r with Ok m' => greplay g m' rs' | Err e => Err e end
+  end.
+
+
+(** ** reopening a group's WALStorage on the live wal.Manager (OpenWALStorage) *)
+Definition rec_of_group (g : N) (r : wrec) : bool :=
+  match r with WEnts g' _ _ | WHs g' _ => g' =? g | WLsm _ _ _ => false end.
+(** segment of the last record of the group that replay meets (replayPtr.Segment) *)
+Definition last_group_seg (g : N) (segs : list segment) : N :=
+  fold_left (fun acc sg => if existsb (rec_of_group g) (snd sg) then fst sg else acc) segs 0.
+Definition last_hs_seg (g : N) (segs : list segment) : N :=
+  fold_left (fun acc sg =>
+    if existsb (fun r => match r with WHs g' _ => g' =? g | _ => false end) (snd sg) then fst sg else acc) segs 0.
+(** entrySpans as replay rebuilds them *)
+Definition respan (g : N) (segs : list segment) : list (N * N) :=
+  fold_left (fun sp sg =>
+    fold_left (fun sp r =>
+      match r with
+      | WEnts g' first es => if g' =? g then span_record sp first (length es) (fst sg) else sp
+      | _ => sp
+      end) (snd sg) sp) segs [].
+
+(** OpenWALStorage: the manifest pointer is validated (its segment must
+    exist), the log is replayed, and the pointer is replaced by the one rebuilt
+    from replay ONLY if replay is really ahead of it (isPointerAhead).  A
+    rebuilt pointer carries no truncation data (no snapshot records here).
+    Every record is synced before the pointer is logged, so within one segment
+    the replayed position equals the stored one: "ahead" = a later segment.
+    On failure no storage object is produced; the caller keeps the old one. *)
+Definition raft_reopen (s : st) (g : N) : st * bool :=
+  let x := group_get (s_groups s) g in
+  let p := g_ptr x in
+  if negb (gp_seg p =? 0) && negb (seg_exists (s_segs s) (gp_seg p)) then (s, false) else
+  match greplay g mem_init (flat_map snd (s_segs s)) with
+  | Err _ => (s, false)
+  | Ok m =>
+      let ls := last_group_seg g (s_segs s) in
+      let p' := if gp_seg p <? ls then {| gp_seg := ls; gp_segidx := 0; gp_trunc := 0 |} else p in
+      let x' := {| g_id := g; g_mem := m;
+                   g_spans := span_prune (respan g (s_segs s)) (gp_trunc p');
+                   g_hs_seg := last_hs_seg g (s_segs s); g_ptr := p' |} in
+      (set_segs_groups s (s_segs s) (group_put (s_groups s) x'), true)
+  end.
+
 (** ** histories *)
 Inductive wop :=
 | WPut (k v : N)
@@ -229,7 +285,8 @@ Inductive wop :=
 | WAppend (g first : N) (es : list entry)
 | WSetHs (g : N) (h : hardstate)
 | WCompact (g idx : N)
-| WWatchdog.
+| WWatchdog
+| WReopen (g : N).               (* the group's WALStorage is closed and opened again *)
 
 (** a fresh DB as the implementation reports it: the segment files and the active one *)
 Definition init (ids : list N) (active : N) : st :=
@@ -261,6 +318,7 @@ Definition step (s : st) (o : wop) : st * list N :=
   | WSetHs g h => (raft_set_hs s g h, [])
   | WCompact g idx => (raft_compact s g idx, [])
   | WWatchdog => watchdog s
+  | WReopen g => (fst (raft_reopen s g), [])
   end.
 
 Fixpoint run (s : st) (ops : list wop) : st :=
@@ -285,21 +343,6 @@ Definition recovered_kvs (s : st) : list (N * N * N) :=
   s_flushed s ++ flat_map (fun sg => lsm_of (snd sg)) (recovery_cleanup s).
 Definition recovered_get (s : st) (k : N) : option N :=
   match newest (recovered_kvs s) k with Some (v, _) => Some v | None => None end.
-
-(** OpenWALStorage replay for group [g] over the remaining segments *)
-Definition greplay1 (g : N) (m : mem) (r : wrec) : res mem :=
-  match r with
-  | WLsm _ _ _ => Ok m
-  | WEnts g' first es =>
-      if negb (g' =? g) then Ok m else
-      match es with [] => Ok m | _ => mem_append m first es end
-  | WHs g' h => if negb (g' =? g) then Ok m else Ok (mem_set_hs m h)
-  end.
-Fixpoint greplay (g : N) (m : mem) (rs : list wrec) : res mem :=
-  match rs with
-  | [] => Ok m
-  | r :: rs' => match greplay1 g m r with Ok m' => greplay g m' rs' | Err e => Err e end
-  end.
 
 Definition recovered_raft (s : st) (g : N) : res obs :=
   let segs := recovery_cleanup s in
